@@ -40,7 +40,7 @@ def jobs(pid, tier, seed, bins, Job, mix, miri_env):
     n = int(pid[1:])
     out = []
     if pid in MT_PROPS:
-        reps = 3 if quick else 8
+        reps = (8 if pid in ("C12", "C14") else 3) if quick else 8
         for i in range(reps):
             variant = "release" if i % 2 else "debug"
             fp = [0, 20, 60][i % 3] if not quick else [0, 30, 0][i % 3]
